@@ -89,7 +89,14 @@ def run(ctx):
     if runner.leak_reports:
         ctx.notes.append("LeakSanitizer reports seen while running the catalogue (memory leaks are property C03's "
                          "subject, not counted here): " + "; ".join(sorted(runner.leak_reports))[:600])
+    found = [v for v in ctx.violations if v.sig.get("kind") != "unproved"
+             and vplib.match_known(ctx.prop, v.sig, vplib.load_known()) is None]
     for name, reason in sorted(broken.items()):
+        if found:
+            # the search did find failing inputs: they are the report; the broken obligation is named in them
+            for v in found:
+                v.replay.setdefault("broken_obligations", {})[name] = reason[:400]
+            continue
         ctx.unproved(name, reason, "errno of every category value -1..8 on the compiled reporters; %d catalogue rows; "
                      "model/library comparison" % ctx.evaluations)
 
